@@ -195,6 +195,13 @@ pub fn param(name: &str) -> Option<u64> {
 	with(|s| s.params.get(name).copied())
 }
 
+/// True when no other task is runnable right now: everything else has run as far as it could and waits for a
+/// timer, for I/O or for the caller. (The driver lets every woken task reach its gate before it grants a run, so the
+/// parked list is the complete set of runnable tasks as long as the caller has not woken anything since its grant.)
+pub fn nothing_else_runnable() -> bool {
+	with(|s| s.parked.is_empty())
+}
+
 /// Current stamp without creating an event.
 pub fn now_stamp() -> u64 {
 	with(|s| s.stamp)
